@@ -497,4 +497,16 @@ def parenthesised (st : Stmt) (p : Params) (col : Option Nat) (fs : Nat) : Bool 
 def noBadParen (st : Stmt) (p : Params) (col : Option Nat) (fs : Nat) : Bool :=
   p.d2fix || !parenthesised st p col fs || (st.fromname.isSome && !isStarStmt st)
 
+/-- no empty component: `..` does not occur -/
+def noDotDot : Str → Bool
+  | '.' :: '.' :: _ => false
+  | _ :: cs => noDotDot cs
+  | [] => true
+
+/-- a fullname as the import grammar produces it: leading dots, then a non-empty dotted path without
+    empty components -/
+def wfName (f : Str) : Bool :=
+  let q := f.dropWhile (· = '.')
+  q ≠ [] && noDotDot q
+
 end Pfb.C11
